@@ -863,7 +863,7 @@ Varable failures: {var_failed}
             laym[:] = layb.mean(1)
             newlayf = layf.applyAlongDimensions(lay=kwds['LAY'])
             nlayb = newlayf.variables['lay_bounds']
-            outf.VGLVLS = np.append(nlayb[:, 0], nlayb[:, 1]).view(np.ndarray)
+            outf.VGLVLS = np.append(nlayb[:, 0], nlayb[-1, 1]).view(np.ndarray)
         outf.updatemeta()
         return outf
 
